@@ -10,3 +10,15 @@ pub use self::query::NormalFormQuery;
 pub use self::query::Query;
 pub use self::query::ResultColumn;
 pub use self::query_plan::QueryPlan;
+
+// verification hooks: re-export of module-private items (add-only, feature `verif`)
+#[cfg(feature = "verif")]
+#[allow(unused_imports)]
+pub mod verif_export {
+    pub mod filter {
+        pub use super::super::filter::*;
+    }
+    pub mod query {
+        pub use super::super::query::*;
+    }
+}
